@@ -36,6 +36,8 @@ def outcome_alphabet(nmax, rich):
             out.append('map:' + m)                       # distinct reply per recipient
             if rich and (m.count('p') >= 2 or m.count('t') >= 2):
                 out.append('map:' + m + ':7')            # same reply for all -> grouped bounce
+                if n >= 3:
+                    out.append('map:' + m + ':7,8,7')    # equal replies separated by a different one
         if rich:
             out.append('seq:' + 'otp'[:n] if n <= 3 else 'seq:otpo')
     return out
@@ -45,16 +47,18 @@ def families(prop, tier):
     q = tier == 'quick'
     fams = []
     B = backends.NAMES if not q else backends.NAMES
-    # F1: relay outcome histories over several rounds, one message, every backend
+    # F1: relay outcome histories over several rounds, one message, every backend.  depth counts decisions:
+    # enqueue + one per round; the drain completes the rest with 'ok'.
     if prop in ('C01', 'C03', 'C13'):
         for be in B:
-            for nr in ((3,) if q else (2, 3, 4)):
+            for nr, bo in (((3, [0, 0, None]), (3, [None]), (2, [0, None])) if q else
+                           ((2, [0, 0, None]), (3, [0, 0, None]), (3, [None]), (3, [0, None]), (4, [0, 0, None]))):
                 if nr == 4 and be not in ('dict', 'gdict'):
                     continue
-                fams.append(dict(name='hist-%s-%d' % (be, nr), mode='dfs', depth=5 if nr < 4 else 4, budget=400 if q else 60000,
-                                 cfg=dict(backend=be, gate_store=False, nmsgs=1, nrcpt=nr, backoff=[0, 0, None],
-                                          outcomes=outcome_alphabet(nr, rich=(prop == 'C13' or not q) and nr <= 3),
-                                          hist=True)))
+                fams.append(dict(name='hist-%s-%d-b%d' % (be, nr, len(bo)), mode='dfs', depth=(3 if q else 4) if len(bo) > 1 else 2,
+                                 budget=10 ** 9, wide=True,
+                                 cfg=dict(backend=be, gate_store=False, nmsgs=1, nrcpt=nr, backoff=bo,
+                                          outcomes=outcome_alphabet(nr, rich=nr <= 3), hist=True)))
     # F2: schedules with a yielding store (every storage call is a gate), 1-2 messages
     if prop in ('C01', 'C03', 'C12'):
         for be in (('gdict',) if q else ('gdict', 'disk')):
@@ -87,9 +91,39 @@ def families(prop, tier):
         fams.append(dict(name='announce-gdict', mode='dfs', depth=7 if q else 9, budget=600 if q else 40000,
                          cfg=dict(backend='gdict', gate_store=True, announce=True, nmsgs=1, nrcpt=2, backoff=[0, None],
                                   outcomes=['ok', 'T1', 'map:ot'])))
+        fams.append(dict(name='announce-gdict-b3', mode='dfs', depth=8 if q else 10, budget=1200 if q else 40000,
+                         cfg=dict(backend='gdict', gate_store=True, announce=True, nmsgs=1, nrcpt=1, backoff=[3, None],
+                                  outcomes=['ok', 'T1'])))
         fams.append(dict(name='announce-dict', mode='dfs', depth=7 if q else 9, budget=600 if q else 40000,
                          cfg=dict(backend='dict', gate_store=False, announce=True, nmsgs=2, nrcpt=1, backoff=[4, None],
                                   outcomes=['ok', 'T1'])))
+    if prop in ('C03', 'C13'):
+        fams.append(dict(name='splitannounce-gdict', mode='dfs', depth=9 if q else 11, budget=1500 if q else 60000,
+                         cfg=dict(backend='gdict', gate_store=True, announce=True, split=True, nmsgs=1, nrcpt=2, backoff=[None],
+                                  outcomes=['ok'])))
+    if prop in ('C03', 'C13'):
+        import itertools as _it
+        base = ['enq', 'write', 'announce', 'get', 'relay:ok', 'remove', 'write']
+        plans = [base, ['enq', 'write', 'announce', 'get', 'relay:ok', 'write', 'remove'],
+                 ['enq', 'write', 'write', 'announce', 'get', 'relay:ok', 'remove'],
+                 ['enq', 'write', 'announce', 'write', 'get', 'relay:ok', 'relay:ok', 'remove']]
+        plans += [list(p) for p in _it.islice(_it.permutations(base[1:]), 0, None, 7 if q else 1)]
+        fams.append(dict(name='splitplan-gdict', mode='plans', plans=plans,
+                         cfg=dict(backend='gdict', gate_store=True, announce=True, split=True, nmsgs=1, nrcpt=2, backoff=[None],
+                                  outcomes=['ok'])))
+    if prop in ('C12',):
+        plan = ['enq', 'write', 'relay:T1', 'increment_attempts', 'set_timestamp', 'announce', 'get', 'relay:T1',
+                'increment_attempts', 'set_timestamp', 'get', 'relay:ok']
+        fams.append(dict(name='staleannounce-gdict', mode='plans', plans=[plan, plan[:-1] + ['relay:T1']],
+                         cfg=dict(backend='gdict', gate_store=True, announce=True, nmsgs=1, nrcpt=1, backoff=[0, 3, None],
+                                  outcomes=['ok', 'T1'])))
+    if prop in ('C12', 'C03'):
+        # relay that answers at once (no yield inside the attempt): completions overtake the scheduler's dispatch loop
+        for sp in (1, 2):
+            for script in (['T1', 'ok', 'T1'], ['T1', 'T1', 'ok', 'ok'], ['ok', 'T1']):
+                fams.append(dict(name='fastrelay-dict', mode='dfs', depth=8 if q else 10, budget=300 if q else 20000,
+                                 cfg=dict(backend='dict', gate_store=False, nmsgs=4, nrcpt=1, backoff=[5, 0, None], store_pool=sp, flush=1,
+                                          fast_relay=script, outcomes=['ok'])))
     if prop in ('C12', 'C01'):
         fams.append(dict(name='pools-dict', mode='dfs', depth=8 if q else 10, budget=600 if q else 40000,
                          cfg=dict(backend='dict', gate_store=False, nmsgs=3, nrcpt=1, backoff=[0, 2, None], store_pool=1, relay_pool=1,
@@ -114,8 +148,11 @@ def main():
     items = []
     for fam in fams:
         if fam['mode'] == 'dfs':
-            for first in range(12):
+            for first in range(len(fam['cfg']['outcomes']) + 2 if fam.get('wide') else 12):
                 items.append((fam, [0, first] if fam['cfg'].get('hist') else [first]))
+        elif fam['mode'] == 'plans':
+            for k in range(8):
+                items.append((fam, k))
         else:
             for k in range(4):
                 items.append((fam, k))
@@ -138,9 +175,14 @@ def main():
                                 'cfg': denull({k: v for k, v in cfg.items() if k != 'outcomes'}), 'nids': nids, 'taken': taken,
                                 'ev': ev}, separators=(',', ':')) + '\n')
             n[0] += 1
-        if fam['mode'] == 'dfs':
+        if fam['mode'] == 'plans':
+            for pi, plan in enumerate(fam['plans']):
+                if pi % 8 == sub:
+                    qdrv.run_plan(cfg, make, ['enq'] + [x for x in plan if x != 'enq'], on_trace=on_trace)
+        elif fam['mode'] == 'dfs':
             cfg['force_prefix'] = sub
-            qdrv.dfs(cfg, make, fam['depth'], max(1, fam['budget'] // 12), on_trace=on_trace)
+            qdrv.dfs(cfg, make, fam['depth'], max(1, fam['budget'] // 12), on_trace=on_trace,
+                     drain_outcome=(lambda info: 'ok') if not cfg.get('hist') else (lambda info: 'ok'))
         else:
             qdrv.random_walks(cfg, make, max(1, fam['budget'] // 4), fam['depth'], rnd, on_trace=on_trace,
                               drain_outcome=lambda info: rnd.choice(['ok', 'ok', 'T1']))
